@@ -277,12 +277,13 @@ def run(ctx):
             elif name.startswith("new_"):
                 return
 
-    def candidates(hist, ln, s, depth=0):
+    def candidates(hist, ln, s, depth=0, latent_only=False):
         """operations that can be responsible for the state of slot s observed at line ln: everything on its
         lineage since the last description that synchronised model and library; observers that rewrite the
-        representation in place (latent effect) are collected beyond that point too"""
+        representation in place (latent effect: the descriptions still print correctly) are collected beyond
+        that point too, also on the lineage of the arguments of binary operations"""
         out = []
-        synced = False
+        synced = latent_only
         for (n, t, cs) in lineage(hist, ln, s):
             tt = t.split()
             if tt[0] == "obs":
@@ -293,11 +294,10 @@ def run(ctx):
                 if tt[2] == "rel_con" and tt[3] != "0":
                     out.append((n, t))          # an observer that rewrites the generator system in place
                 continue
-            if synced:
-                continue
-            out.append((n, t))
+            if not synced:
+                out.append((n, t))
             if tt[2] in BINARY and depth < 3 and tt[3].isdigit() and int(tt[3]) != cs:
-                out += candidates(hist, n, int(tt[3]), depth + 1)
+                out += candidates(hist, n, int(tt[3]), depth + 1, latent_only=synced)
         return out
 
     def producer_of_empty(hist, ln, s):
